@@ -910,6 +910,9 @@ def run(chk: Check) -> None:
     d2_types(chk, cl)
     d2e_wrapped_elements(chk)
     d2f_join_over_text(chk, cl)
+    from rules.shared import implicit_ordering_rule
+    implicit_ordering_rule(chk, "C15-D2g", [
+        f for f in cl if not f.short.startswith(C14_OWNED_PREFIX)], 40)
     chk.notes.append("closure: {} functions".format(len(cl)))
     chk.notes.append("non-negative int parameters: {}".format(
         sorted("{}.{}".format(q.split(".")[-1], p)
